@@ -139,7 +139,7 @@ inductive Lit where
   | int (i : Int)
   | float (bits : Nat)                         -- the IEEE double, by bit pattern
   | str (s : Name)
-  | tag (uns uname tag : Name)                 -- `TagRef(union_data_type, tag_name)`
+  | tag (u : Ty) (tag : Name)                  -- `TagRef(union_data_type, tag_name)`: the union, or an alias of it
   deriving DecidableEq, Repr, Inhabited
 
 structure Field where
@@ -318,10 +318,10 @@ structure ClientModule where
   deriving Repr, Inhabited
 
 inductive GenErr where
-  | multilineDefault (field : Name)            -- AssertionError of `emit`: 'String to emit cannot contain newline strings.'
   | nameConflict (ns : Name)                   -- RuntimeError of `check_route_name_conflict`
   | unhandledArgType (ns route : Name)         -- AssertionError 'Unhandled request type'
   | defaultWithoutNamespace (field : Name)     -- `_generate_python_value(None, <TagRef>)`: AttributeError
+  | defaultNotUserDefined (field : Name)       -- `class_name_for_data_type(<not a struct / union>)`: AssertionError
   deriving Repr, DecidableEq, Inhabited
 
 /-! ## stone/backends/python_client.py -/
@@ -335,32 +335,21 @@ def routeNameConflict (ns : Namespace) : Bool :=
       if seen.contains n then true else go (n :: seen) rs
   go [] ns.routes
 
-/-- `\s` / `str.splitlines` on ASCII -/
-def isWs (c : Char) : Bool :=
-  c == ' ' || c == '\t' || c == '\n' || c == '\r' || c == '\x0b' || c == '\x0c' || c == '\x1c' || c == '\x1d' || c == '\x1e' ||
-  c == '\x1f'
-def isLineBreak (c : Char) : Bool :=
-  c == '\n' || c == '\r' || c == '\x0b' || c == '\x0c' || c == '\x1c' || c == '\x1d' || c == '\x1e'
-
-/-- `'\n' in fmt_obj(s)` = `'\n' in pprint.pformat(s, width=1)`: pprint breaks a string after every run of
-whitespace that is followed by something else, and after every line break that is not at its end. The text then
-goes through `emit`, which refuses it. -/
-def pformatWraps : Name → Bool
-  | [] => false
-  | [_] => false
-  | a :: b :: rest =>
-    if a == '\r' && b == '\n' then !rest.isEmpty || pformatWraps (b :: rest)
-    else if isLineBreak a then true
-    else if isWs a && !isWs b then true
-    else pformatWraps (b :: rest)
-
-/-- `_generate_python_value(ns, value)` with `ns = field.data_type.namespace` for user-defined field types -/
+/-- `_generate_python_value(ns, value)` with `ns = field.data_type.namespace` for user-defined field types. The
+field types have lost their aliases, the `TagRef` of a default has not: the class name is the one of
+`unwrap_aliases(value.union_data_type)` (since the repair of c14-tag-default-foreign-alias-*; it used to be the
+alias's own name, looked up in the union's module). A string is printed with `repr` (since the repair of
+c14-string-default-with-blank; `fmt_obj` = `pprint.pformat(width=1)` wrapped it at blanks and `emit` refused the
+text), every other literal with `fmt_obj`: a Python literal denoting the same value either way. -/
 def genPythonValue (fieldName : Name) (ns : Option Name) : Lit → Except GenErr Dflt
-  | .tag _ uname tag =>
+  | .tag u tag =>
     match ns with
-    | some n => .ok (.tagAttr (fmtNamespace n) (fmtClass uname) (fmtVar tag))
     | none => .error (.defaultWithoutNamespace fieldName)
-  | .str s => if pformatWraps s then .error (.multilineDefault fieldName) else .ok (.lit (.str s))
+    | some n =>
+      match unwrapAliases u with
+      | .struct _ uname => .ok (.tagAttr (fmtNamespace n) (fmtClass uname) (fmtVar tag))
+      | .union _ uname => .ok (.tagAttr (fmtNamespace n) (fmtClass uname) (fmtVar tag))
+      | _ => .error (.defaultNotUserDefined fieldName)
   | l => .ok (.lit l)
 
 /-- one field of a struct argument in `_generate_route_method_decl` (the IR has no aliases any more) -/
@@ -430,7 +419,7 @@ def nsMethods (api : Api) (ns : Namespace) : Except GenErr (List Method) :=
 /-- `PythonClientBackend.generate` -/
 def pyClient (api : Api) : Except GenErr ClientModule :=
   ((api.namespaces.filter (fun ns => !ns.routes.isEmpty)).mapM (nsMethods api)).map fun ms =>
-    { imports := (api.namespaces.filter (·.hasDataTypes)).map (fun ns => fmtNamespace ns.name)
+    { imports := (api.namespaces.filter (fun ns => ns.hasDataTypes || !ns.routes.isEmpty)).map (fun ns => fmtNamespace ns.name)
       importsWarnings := api.namespaces.any (fun ns => ns.routes.any (·.deprecated.isSome))
       methods := ms.flatten }
 
@@ -679,7 +668,11 @@ def specRequired (f : Field) : Bool := !specNullable f.ty && f.dflt.isNone
 /-- the Python value a spec default denotes: the literal itself, or the tag object of the union's class -/
 def specDefault (f : Field) : Dflt :=
   match f.dflt with
-  | some (.tag uns uname tag) => if specNullable f.ty then .pyNone else .tagAttr (fmtNamespace uns) (fmtClass uname) (fmtVar tag)
+  | some (.tag _ tag) =>
+    if specNullable f.ty then .pyNone else
+    match specUnalias f.ty with
+    | .union uns uname => .tagAttr (fmtNamespace uns) (fmtClass uname) (fmtVar tag)
+    | _ => .pyNone
   | some l => if specNullable f.ty then .pyNone else .lit l
   | none => .pyNone
 
@@ -687,7 +680,7 @@ def specDefault (f : Field) : Dflt :=
 def specDefaultVal (f : Field) : Val :=
   if specNullable f.ty then .none else
   match f.dflt with
-  | some (.tag _ _ tag) =>
+  | some (.tag _ tag) =>
     match specUnalias f.ty with
     | .union uns uname => .tagObj (uns, uname) (fmtVar tag)
     | _ => .none
@@ -723,18 +716,16 @@ def expectedOutcome (api : Api) (ns : Namespace) (r : Route) (σ : List (Name ×
     saved := none
     ret := if (specUnalias r.result).isVoid then .none else .result }
 
-/-- a tag-reference default belongs to the union the field is declared with (what the frontend builds) -/
+def Ty.isUnion : Ty → Bool
+  | .union _ _ => true
+  | _ => false
+
+/-- a tag-reference default refers to the union the field is declared with, by the union itself or by any alias of
+it (what the frontend builds: `TagRef(field.data_type, …)` with the `Nullable` wrapper taken off) -/
 def defaultsWellTyped (api : Api) (r : Ref) : Bool :=
   (declFields api r).all fun f =>
     match f.dflt with
-    | some (.tag uns uname _) => specUnalias f.ty == .union uns uname
-    | _ => true
-
-/-- no string default that `pprint.pformat(width=1)` wraps (python_client then dies in `emit`) -/
-def defaultsPrintable (api : Api) (r : Ref) : Bool :=
-  (declFields api r).all fun f =>
-    match f.dflt with
-    | some (.str s) => !pformatWraps s
+    | some (.tag u _) => (specUnalias f.ty).isUnion && specUnalias u == specUnalias f.ty
     | _ => true
 
 /-- no field type is an alias of a nullable type (then python_types and python_client agree on which fields
